@@ -6,6 +6,7 @@ package harness
 
 import (
 	"context"
+	"encoding/json"
 	"fmt"
 	"io"
 	"runtime/debug"
@@ -444,4 +445,27 @@ func pbFromDet(b []byte) string {
 		s = s[:200] + "..."
 	}
 	return s
+}
+
+// sampleForReference picks (deterministically, from the script itself) about one case in
+// sixteen (one in four in the thorough tier) for a run on the reference transport even though
+// the SUT agreed with the model: this validates the model, not the SUT.
+// referenceUsable: there are two inputs on which grpc-go itself does not do what the property
+// says - status codes above MaxInt32 (written as uint32, parsed as int32: "malformed
+// grpc-status") and a non-nil handler error whose status says OK (reported as success). There
+// the property statement decides alone; the reference is neither sampled nor asked to arbitrate.
+func referenceUsable(s *Script) bool {
+	return !(s.Final.Kind == "ok-status-error" || (s.Final.Kind == "status" && s.Final.Code > 1<<31-1))
+}
+
+func sampleForReference(s *Script) bool {
+	if !referenceUsable(s) {
+		return false
+	}
+	b, _ := json.Marshal(s)
+	h := hashBytes(b)
+	if thorough() {
+		return h%4 == 0
+	}
+	return h%16 == 0
 }
